@@ -90,6 +90,11 @@ def rm (b : Bucket) (name : Key) (freshId : Nat) : Bucket × Bool × Option Nat 
       | none => ({ b with objects := SMap.erase b.objects name }, false, none, false)
       | some _ => ({ b with objects := SMap.insert b.objects name o' }, false, none, false)
 
+/-- put an updated object back, or drop the key when nothing of it is left -/
+def storeObj (b : Bucket) (name : Key) (o : Obj) : Bucket :=
+  if o.data.isNone && o.versions.isEmpty then { b with objects := SMap.erase b.objects name }
+  else { b with objects := SMap.insert b.objects name o }
+
 /-- `bucket.rmVersion`: result = (isDeleteMarker, versionId) -/
 def rmVersion (b : Bucket) (name : Key) (vid : Nat) : Bucket × Bool × Option Nat :=
   match SMap.find b.objects name with
@@ -106,9 +111,7 @@ def rmVersion (b : Bucket) (name : Key) (vid : Nat) : Bucket × Bool × Option N
         match object.versions.find? (·.id == vid) with
         | some v => ({ object with versions := object.versions.filter (fun w => !(w.id == vid)) }, (v.marker, some vid))
         | none => (object, (false, none))
-    if o1.data.isNone && o1.versions.isEmpty then
-      ({ b with objects := SMap.erase b.objects name }, res.1, res.2)
-    else ({ b with objects := SMap.insert b.objects name o1 }, res.1, res.2)
+    (b.storeObj name o1, res.1, res.2)
 
 /-- `bucket.objectVersion` for a non-empty version id -/
 def objectVersion (b : Bucket) (name : Key) (vid : Nat) : Res Ver :=
